@@ -19,7 +19,10 @@ VARIABLE c        \* sequence of [fn, arg, cut]  (cut: this call starts a new ru
 \* 1.00 are different arguments (a function can tell them apart), NaN is one argument
 ArgPool == << I(1), St("1"), VFloat(FZero(1)), VFloat(FZero(-1)), Dc(10, 1), Dc(100, 2), VFloat(FNaN),
               VMap(<< <<S("x"), I(1)>>, <<S("y"), I(2)>> >>), VMap(<< <<S("x: i1, y"), I(2)>> >>), VVec(<<I(1)>>),
-              Fl(1, 1, 0), St("i1"), Dc(1, 0), VMap(<< <<S("a"), I(1)>> >>), I(2) >>
+              Fl(1, 1, 0), St("i1"), Dc(1, 0), VMap(<< <<S("a"), I(1)>> >>), I(2),
+              \* instants and durations that differ only below one second
+              \* (2015-07-30T03:26:13.25Z, ...13.75Z, 1.25 s, 1.75 s; written as limb literals: this pool is re-evaluated at every use)
+              VDT(Z(1, <<17536, 11275, 28293, 8108, 1>>)), VDT(Z(1, <<10624, 26534, 28293, 8108, 1>>)), VDur(Z(1, <<31872, 5378, 1>>)), VDur(Z(1, <<24960, 20637, 1>>)) >>
 LongStr(n, last) == VStr([i \in 1..n |-> IF i = n THEN 48 + last ELSE 97 + (i % 7)])
 LongVec(n, last) == VVec([i \in 1..n |-> IF i = n THEN I(1000 + last) ELSE I(i)])
 ScaleArgs == [i \in 1..Scale |-> I(i)] \o <<LongStr(Scale, 1), LongStr(Scale, 2), LongVec(Scale, 1), LongVec(Scale, 2)>>
@@ -62,8 +65,10 @@ Groups == Split(1, <<>>)
 RName(i) == <<114, 48 + i>>
 MaxK == IF Scale > 0 THEN NA ELSE MaxCalls
 CallE(x) == Call(Funcs[x.fn].name, Val(Args[x.arg]))
+\* (the long history ends with one more rule: the NON-cacheable g compared with itself, written identically on both sides)
 RS == LET G == Groups IN
-      [rules |-> [i \in 1..Len(G) |-> [name |-> RName(i), expr |-> VecE([k \in 1..Len(G[i]) |-> CallE(G[i][k])])]],
+      [rules |-> [i \in 1..Len(G) |-> [name |-> RName(i), expr |-> VecE([k \in 1..Len(G[i]) |-> CallE(G[i][k])])]]
+                 \o (IF Scale > 0 THEN <<[name |-> S("rq"), expr |-> Bin("eq", Call(S("g"), Val(Args[1])), Call(S("g"), Val(Args[1])))]>> ELSE <<>>),
        funcs |-> Funcs, syms |-> <<>>]
 Input == VNone
 
